@@ -54,7 +54,16 @@ def _fixture_classes():
             n, e = b.decode().split("|")
             return cls(n, e == "1")
 
-    return KC, KCB
+    class KCM(KCB):
+        """Mixed: some instances cannot be compressed (to_bytes raises NotImplementedError for them), the others are
+        stored compressed - the database must hold both kinds side by side."""
+
+        def to_bytes(self):
+            if self.name == "b":
+                raise NotImplementedError
+            return KCB.to_bytes(self)
+
+    return KC, KCB, KCM
 
 
 def replay_history(hist, kind_cls, te):
@@ -130,10 +139,10 @@ def model_histories(run: Run, tier: str, seed: int):
 
 
 def build_traces(hists, te=("e",)):
-    KC, KCB = _fixture_classes()
+    KC, KCB, KCM = _fixture_classes()
     traces = []
     for i, h in enumerate(hists):
-        for kind, cls in (("plain", KC), ("bytes", KCB)):
+        for kind, cls in (("plain", KC), ("bytes", KCB), ("mixed", KCM)):
             traces.append({"tid": "h%d-%s" % (i, kind), "te": list(te), "sig": "kind=%s" % kind,
                            "events": replay_history(h, cls, set(te))})
     return traces
@@ -179,8 +188,8 @@ def run(tier: str, seed: int) -> int:
             run_.sample({"search_trace_head": {**straces[0], "events": straces[0]["events"][:12]}})
             judge(run_, straces, "search-traffic")
     run_.rule = ("histories = transition cover of the ClassDB.tla state graph (one shortest history per distinct "
-                 "(state, call), %d of them) + TLC simulator behaviours, each replayed on a plain and on a "
-                 "zlib-compressed fixture class; non-trivial = labels >= 2 classes and queries membership/"
+                 "(state, call), %d of them) + TLC simulator behaviours, each replayed on a plain, a "
+                 "zlib-compressed and a mixed (some instances not compressible) fixture class; non-trivial = labels >= 2 classes and queries membership/"
                  "emptiness/lookup; plus class-db traffic of real searches" % cover)
     run_.exhaustive = False
     run_.extra["transition_cover_histories"] = cover
@@ -196,7 +205,7 @@ def run(tier: str, seed: int) -> int:
 def selftest(seed: int) -> int:
     """Binding demonstration: corrupt one recorded field / drop one state-changing event -> TLC must reject."""
     run_ = Run("C15", "quick", seed)
-    KC, _ = _fixture_classes()
+    KC = _fixture_classes()[0]
     h = [{"op": "get_label", "kc": "c", "c": "a", "l": 0, "b": False},
          {"op": "get_label", "kc": "c", "c": "b", "l": 0, "b": False},
          {"op": "is_empty", "kc": "c", "c": "b", "l": 0, "b": False},
